@@ -114,16 +114,16 @@ Proof.
   - (* i32, i32 *)
     destruct op; cbn [is_shift] in Hw; try discriminate;
       unfold wgsl_binary_i32, rt_arith_i32, rt_cmp_i32 in Hw.
-    + inv Hw. split; [cbn; auto with in32db|]. intros v. rewrite fold_add_i32. intros E; inv E. reflexivity.
-    + inv Hw. split; [cbn; auto with in32db|]. intros v. rewrite fold_sub_i32. intros E; inv E. reflexivity.
-    + inv Hw. split; [cbn; auto with in32db|]. intros v. rewrite fold_mul_i32. intros E; inv E. reflexivity.
-    + destruct (div_err_i32 a b) eqn:Ed; [discriminate|]. inv Hw. split; [cbn; auto with in32db|].
+    + inv Hw. split; [cbn [wf_val]; auto with in32db|]. intros v. rewrite fold_add_i32. intros E; inv E. reflexivity.
+    + inv Hw. split; [cbn [wf_val]; auto with in32db|]. intros v. rewrite fold_sub_i32. intros E; inv E. reflexivity.
+    + inv Hw. split; [cbn [wf_val]; auto with in32db|]. intros v. rewrite fold_mul_i32. intros E; inv E. reflexivity.
+    + destruct (div_err_i32 a b) eqn:Ed; [discriminate|]. inv Hw. split; [cbn [wf_val]; auto with in32db|].
       intros v. rewrite fold_div_i32 by assumption. destruct (b =? 0); [discriminate|]. intros E; inv E. reflexivity.
-    + destruct (div_err_i32 a b) eqn:Ed; [discriminate|]. inv Hw. split; [cbn; auto with in32db|].
+    + destruct (div_err_i32 a b) eqn:Ed; [discriminate|]. inv Hw. split; [cbn [wf_val]; auto with in32db|].
       intros v. rewrite fold_mod_i32 by assumption. destruct (b =? 0); [discriminate|]. intros E; inv E. reflexivity.
-    + inv Hw. split; [cbn; auto with in32db|]. intros v. rewrite fold_and_i32 by assumption. intros E; inv E. reflexivity.
-    + inv Hw. split; [cbn; auto with in32db|]. intros v. rewrite fold_or_i32 by assumption. intros E; inv E. reflexivity.
-    + inv Hw. split; [cbn; auto with in32db|]. intros v. rewrite fold_xor_i32 by assumption. intros E; inv E. reflexivity.
+    + inv Hw. split; [cbn [wf_val]; auto with in32db|]. intros v. rewrite fold_and_i32 by assumption. intros E; inv E. reflexivity.
+    + inv Hw. split; [cbn [wf_val]; auto with in32db|]. intros v. rewrite fold_or_i32 by assumption. intros E; inv E. reflexivity.
+    + inv Hw. split; [cbn [wf_val]; auto with in32db|]. intros v. rewrite fold_xor_i32 by assumption. intros E; inv E. reflexivity.
     + inv Hw. split; [exact I|]. intros v. rewrite fold_eq_i32 by assumption. intros E; inv E. reflexivity.
     + inv Hw. split; [exact I|]. intros v. rewrite fold_ne_i32 by assumption. intros E; inv E. reflexivity.
     + inv Hw. split; [exact I|]. intros v. rewrite fold_lt_i32. intros E; inv E. reflexivity.
@@ -133,9 +133,9 @@ Proof.
   - (* i32 shifted by u32 *)
     destruct op; cbn [is_shift] in Hw; try discriminate; unfold wgsl_shift in Hw;
       destruct (Z.leb_spec 32 b); try discriminate.
-    + destruct (shl_overflow_i32 a b); [discriminate|]. inv Hw. split; [cbn; auto with in32db|].
+    + destruct (shl_overflow_i32 a b); [discriminate|]. inv Hw. split; [cbn [wf_val]; auto with in32db|].
       intros v. rewrite fold_shl_i32 by (assumption || lia). intros E; inv E. reflexivity.
-    + inv Hw. split; [cbn; auto with in32db|].
+    + inv Hw. split; [cbn [wf_val]; auto with in32db|].
       intros v. rewrite fold_shr_i32 by (assumption || lia). intros E; inv E. reflexivity.
   - (* i32, bool: no overload *)
     destruct op; cbn [is_shift wgsl_shift] in Hw; discriminate.
@@ -144,20 +144,20 @@ Proof.
   - (* u32, u32 *)
     destruct op; cbn [is_shift] in Hw; try discriminate;
       unfold wgsl_binary_u32, rt_arith_u32, rt_cmp_u32, wgsl_shift in Hw.
-    + inv Hw. split; [cbn; auto with in32db|]. intros v. rewrite fold_add_u32. intros E; inv E. reflexivity.
-    + inv Hw. split; [cbn; auto with in32db|]. intros v. rewrite fold_sub_u32. intros E; inv E. reflexivity.
-    + inv Hw. split; [cbn; auto with in32db|]. intros v. rewrite fold_mul_u32. intros E; inv E. reflexivity.
-    + destruct (div_err_u32 b) eqn:Ed; [discriminate|]. inv Hw. split; [cbn; auto with in32db|].
+    + inv Hw. split; [cbn [wf_val]; auto with in32db|]. intros v. rewrite fold_add_u32. intros E; inv E. reflexivity.
+    + inv Hw. split; [cbn [wf_val]; auto with in32db|]. intros v. rewrite fold_sub_u32. intros E; inv E. reflexivity.
+    + inv Hw. split; [cbn [wf_val]; auto with in32db|]. intros v. rewrite fold_mul_u32. intros E; inv E. reflexivity.
+    + destruct (div_err_u32 b) eqn:Ed; [discriminate|]. inv Hw. split; [cbn [wf_val]; auto with in32db|].
       intros v. rewrite fold_div_u32 by assumption. destruct (b =? 0); [discriminate|]. intros E; inv E. reflexivity.
-    + destruct (div_err_u32 b) eqn:Ed; [discriminate|]. inv Hw. split; [cbn; auto with in32db|].
+    + destruct (div_err_u32 b) eqn:Ed; [discriminate|]. inv Hw. split; [cbn [wf_val]; auto with in32db|].
       intros v. rewrite fold_mod_u32 by assumption. destruct (b =? 0); [discriminate|]. intros E; inv E. reflexivity.
-    + inv Hw. split; [cbn; auto with in32db|]. intros v. rewrite fold_and_u32 by assumption. intros E; inv E. reflexivity.
-    + inv Hw. split; [cbn; auto with in32db|]. intros v. rewrite fold_or_u32 by assumption. intros E; inv E. reflexivity.
-    + inv Hw. split; [cbn; auto with in32db|]. intros v. rewrite fold_xor_u32 by assumption. intros E; inv E. reflexivity.
+    + inv Hw. split; [cbn [wf_val]; auto with in32db|]. intros v. rewrite fold_and_u32 by assumption. intros E; inv E. reflexivity.
+    + inv Hw. split; [cbn [wf_val]; auto with in32db|]. intros v. rewrite fold_or_u32 by assumption. intros E; inv E. reflexivity.
+    + inv Hw. split; [cbn [wf_val]; auto with in32db|]. intros v. rewrite fold_xor_u32 by assumption. intros E; inv E. reflexivity.
     + destruct (Z.leb_spec 32 b); [discriminate|]. destruct (shl_overflow_u32 a b); [discriminate|]. inv Hw.
-      split; [cbn; auto with in32db|]. intros v. rewrite fold_shl_u32 by (assumption || lia). intros E; inv E. reflexivity.
+      split; [cbn [wf_val]; auto with in32db|]. intros v. rewrite fold_shl_u32 by (assumption || lia). intros E; inv E. reflexivity.
     + destruct (Z.leb_spec 32 b); [discriminate|]. inv Hw.
-      split; [cbn; auto with in32db|]. intros v. rewrite fold_shr_u32 by (assumption || lia). intros E; inv E. reflexivity.
+      split; [cbn [wf_val]; auto with in32db|]. intros v. rewrite fold_shr_u32 by (assumption || lia). intros E; inv E. reflexivity.
     + inv Hw. split; [exact I|]. intros v. rewrite fold_eq_u32. intros E; inv E. reflexivity.
     + inv Hw. split; [exact I|]. intros v. rewrite fold_ne_u32. intros E; inv E. reflexivity.
     + inv Hw. split; [exact I|]. intros v. rewrite fold_lt_u32. intros E; inv E. reflexivity.
@@ -180,7 +180,7 @@ Lemma unary_sound op x w :
   wf_val x -> wgsl_unary op x = Ok w ->
   wf_val w /\ forall v, try_fold_unary_op F op (lit_of_wval x) = Some v -> v = lit_of_wval w.
 Proof.
-  intros Hx Hw. destruct x as [a|a|a|a]; try contradiction; destruct op; cbn in Hw; try discriminate; inv Hw; cbn [wf_val lit_of_wval] in *.
+  intros Hx Hw. destruct x as [a|a|a|a]; try contradiction; destruct op; cbn [wgsl_unary] in Hw; try discriminate; inv Hw; cbn [wf_val lit_of_wval] in *.
   - split; [auto with in32db|]. intros v. rewrite fold_neg_i32. intros E; inv E. reflexivity.
   - split; [auto with in32db|]. intros v. rewrite fold_bnot_i32 by assumption. intros E; inv E. reflexivity.
   - split; [auto with in32db|]. intros v. rewrite fold_bnot_u32 by assumption. intros E; inv E. reflexivity.
@@ -192,7 +192,7 @@ Lemma convert_sound t x w :
   wf_val w /\ forall v, try_fold_as F (lit_of_wval x) t = Some v -> v = lit_of_wval w.
 Proof.
   intros Hx Hw. destruct x as [a|a|a|a]; try contradiction; unfold wgsl_convert in Hw;
-    destruct t; cbn in Hw; try discriminate; inv Hw; cbn [wf_val lit_of_wval] in *.
+    destruct t; cbn [wgsl_convert_concrete] in Hw; try discriminate; inv Hw; cbn [wf_val lit_of_wval] in *.
   - split; [assumption|]. intros v. rewrite fold_as_i32_of_i32 by assumption. intros E; inv E. reflexivity.
   - split; [assumption|]. intros v. rewrite fold_as_u32_of_i32 by assumption. intros E; inv E. reflexivity.
   - split; [exact I|]. intros v. rewrite fold_as_bool_of_i32 by assumption. intros E; inv E. reflexivity.
@@ -202,6 +202,317 @@ Proof.
   - split; [destruct a; unfold in32, u32_of_bool, M32; lia|]. intros v. rewrite (fold_as_of_bool F a TI32) by auto. intros E; inv E. reflexivity.
   - split; [destruct a; unfold in32, u32_of_bool, M32; lia|]. intros v. rewrite (fold_as_of_bool F a TU32) by auto. intros E; inv E. reflexivity.
   - split; [exact I|]. intros v. rewrite fold_as_bool_of_bool. intros E; inv E. reflexivity.
+Qed.
+
+(* ---------------- integer builtins ---------------- *)
+#[local] Opaque count_trailing_zeros count_leading_zeros count_one_bits reverse_bits first_trailing_bit first_leading_bit_u32 first_leading_bit_i32.
+Ltac fin L R := split; [unfold wf_val; (apply R; assumption) || apply R|]; intros v; rewrite L by assumption; intros E; injection E as <-; reflexivity.
+
+Lemma math1_sound f x w :
+  int_math f = true -> wf_val x -> wgsl_math f [x] = Ok w ->
+  wf_val w /\ forall v, try_fold_scalar_math F f (concretize_math_args F f [lit_of_wval x]) = Some v -> v = lit_of_wval w.
+Proof.
+  intros Hf Hx Hw. destruct x as [a|a|a|a]; try contradiction; cbn [wf_val] in Hx.
+  - (* i32 *)
+    unfold wgsl_math in Hw. cbn [first_concrete concrete_ty unify_all unify_to map payload] in Hw.
+    change (concretize_math_args F f [lit_of_wval (VI32 a)]) with [LI32 a].
+    destruct f; try discriminate; cbn [wgsl_math_i32] in Hw; inv Hw.
+    + fin fold_abs_i32 abs_i32_in.
+    + fin fold_sign_i32 sign_i32_in.
+    + fin fold_ctz_i32 count_trailing_zeros_in.
+    + fin fold_clz_i32 count_leading_zeros_in.
+    + fin fold_popcount_i32 count_one_bits_in.
+    + fin fold_reverse_i32 reverse_bits_in.
+    + fin fold_ftb_i32 first_trailing_bit_in.
+    + fin fold_flb_i32 first_leading_bit_i32_in.
+  - (* u32 *)
+    unfold wgsl_math in Hw. cbn [first_concrete concrete_ty unify_all unify_to map payload] in Hw.
+    change (concretize_math_args F f [lit_of_wval (VU32 a)]) with [LU32 a].
+    destruct f; try discriminate; cbn [wgsl_math_u32] in Hw; inv Hw.
+    + fin fold_abs_u32 (fun a (H : in32 a) => H).
+    + fin fold_ctz_u32 count_trailing_zeros_in.
+    + fin fold_clz_u32 count_leading_zeros_in.
+    + fin fold_popcount_u32 count_one_bits_in.
+    + fin fold_reverse_u32 reverse_bits_in.
+    + fin fold_ftb_u32 first_trailing_bit_in.
+    + fin fold_flb_u32 first_leading_bit_u32_in.
+  - (* bool: no overload *)
+    unfold wgsl_math in Hw. cbn [first_concrete concrete_ty unify_all unify_to] in Hw. discriminate.
+Qed.
+
+Lemma math2_sound f x y w :
+  int_math f = true -> wf_val x -> wf_val y -> wgsl_math f [x; y] = Ok w ->
+  wf_val w /\ forall v, try_fold_scalar_math F f (concretize_math_args F f [lit_of_wval x; lit_of_wval y]) = Some v -> v = lit_of_wval w.
+Proof.
+  intros Hf Hx Hy Hw.
+  destruct x as [a|a|a|a]; try contradiction; destruct y as [b|b|b|b]; try contradiction; cbn [wf_val] in Hx, Hy;
+    unfold wgsl_math in Hw; cbn [first_concrete concrete_ty unify_all unify_to map payload] in Hw; try discriminate.
+  - change (concretize_math_args F f [lit_of_wval (VI32 a); lit_of_wval (VI32 b)]) with [LI32 a; LI32 b].
+    destruct f; try discriminate; cbn [wgsl_math_i32] in Hw; inv Hw.
+    + fin fold_min_i32 min_i32_in.
+    + fin fold_max_i32 max_i32_in.
+  - change (concretize_math_args F f [lit_of_wval (VU32 a); lit_of_wval (VU32 b)]) with [LU32 a; LU32 b].
+    destruct f; try discriminate; cbn [wgsl_math_u32] in Hw; inv Hw.
+    + fin fold_min_u32 min_u32_in.
+    + fin fold_max_u32 max_u32_in.
+Qed.
+
+Lemma clamp_i32_in e lo hi : in32 e -> in32 lo -> in32 hi -> in32 (clamp_i32 e lo hi).
+Proof. intros. unfold clamp_i32. auto with in32db. Qed.
+Lemma clamp_u32_in e lo hi : in32 e -> in32 lo -> in32 hi -> in32 (clamp_u32 e lo hi).
+Proof. intros. unfold clamp_u32. auto with in32db. Qed.
+
+Lemma math3_sound f x y z w :
+  int_math f = true -> wf_val x -> wf_val y -> wf_val z -> wgsl_math f [x; y; z] = Ok w ->
+  wf_val w /\ forall v, try_fold_scalar_math F f (concretize_math_args F f [lit_of_wval x; lit_of_wval y; lit_of_wval z]) = Some v -> v = lit_of_wval w.
+Proof.
+  intros Hf Hx Hy Hz Hw.
+  destruct x as [a|a|a|a]; try contradiction; destruct y as [b|b|b|b]; try contradiction; destruct z as [c|c|c|c]; try contradiction;
+    cbn [wf_val] in Hx, Hy, Hz;
+    unfold wgsl_math in Hw; cbn [first_concrete concrete_ty unify_all unify_to map payload] in Hw; try discriminate.
+  - change (concretize_math_args F f [lit_of_wval (VI32 a); lit_of_wval (VI32 b); lit_of_wval (VI32 c)]) with [LI32 a; LI32 b; LI32 c].
+    destruct f; try discriminate; cbn [wgsl_math_i32] in Hw.
+    destruct (lt_i32 c b) eqn:Hord; [discriminate|]. inv Hw.
+    split; [cbn [wf_val]; apply clamp_i32_in; assumption|]. intros v. rewrite fold_clamp_i32 by assumption. intros E; inv E. reflexivity.
+  - change (concretize_math_args F f [lit_of_wval (VU32 a); lit_of_wval (VU32 b); lit_of_wval (VU32 c)]) with [LU32 a; LU32 b; LU32 c].
+    destruct f; try discriminate; cbn [wgsl_math_u32] in Hw.
+    destruct (lt_u32 c b) eqn:Hord; [discriminate|]. inv Hw.
+    split; [cbn [wf_val]; apply clamp_u32_in; assumption|]. intros v. rewrite fold_clamp_u32 by assumption. intros E; inv E. reflexivity.
+Qed.
+
+(* ---------------- the induction ---------------- *)
+Lemma bind_ok r k w : bind r k = Ok w -> exists v, r = Ok v /\ k v = Ok w.
+Proof. destruct r; cbn; try discriminate. intros H. eauto. Qed.
+Lemma bind2_ok r1 r2 k w : bind2 r1 r2 k = Ok w -> exists a b, r1 = Ok a /\ r2 = Ok b /\ k a b = Ok w.
+Proof. destruct r1, r2; cbn; try discriminate. intros H. eauto. Qed.
+Lemma bind3_ok r1 r2 r3 k w : bind3 r1 r2 r3 k = Ok w -> exists a b c, r1 = Ok a /\ r2 = Ok b /\ r3 = Ok c /\ k a b c = Ok w.
+Proof. destruct r1, r2, r3; cbn; try discriminate. intros H. eauto 8. Qed.
+
+Lemma some_or_self {A} (x : option A) : match x with Some v => Some v | None => x end = x.
+Proof. destruct x; reflexivity. Qed.
+
+Lemma concretize_default_plain l : plain l -> concretize_default F l = l.
+Proof. destruct l; cbn; tauto. Qed.
+
+Definition sound_at (e : cexpr) : Prop :=
+  forall w, wgsl_eval e = Ok w -> wf_val w /\ forall v, fold_expr F e = Some v -> v = lit_of_wval w.
+
+Lemma lit_sound l : concrete_tree (CLit l) = true -> sound_at (CLit l).
+Proof.
+  intros Hc w Hw. destruct l; try discriminate; cbn [wgsl_eval wgsl_literal] in Hw.
+  - destruct (Z.leb_spec 0 b); destruct (Z.ltb_spec b H32); cbn [andb] in Hw; try discriminate. inv Hw.
+    split; [unfold wf_val, in32, M32, H32 in *; lia|]. cbn [fold_expr]. intros v E; inv E. reflexivity.
+  - unfold in_u32_range in Hw. destruct (Z.leb_spec 0 b); destruct (Z.ltb_spec b M32); cbn [andb] in Hw; try discriminate. inv Hw.
+    split; [unfold wf_val, in32; lia|]. cbn [fold_expr]. intros v E; inv E. reflexivity.
+  - inv Hw. split; [exact I|]. cbn [fold_expr]. intros v E; inv E. reflexivity.
+Qed.
+
+Theorem fold_tree_sound : forall e, concrete_tree e = true -> sound_at e.
+Proof.
+  induction e as [l | op a IHa | op a IHa b IHb | t a IHa | f a IHa | f a IHa b IHb | f a IHa b IHb c IHc | fv IHf tv IHt c IHc];
+    intros Hc.
+  - apply lit_sound. assumption.
+  - (* unary *)
+    cbn [concrete_tree] in Hc. specialize (IHa Hc). intros w Hw. cbn [wgsl_eval] in Hw.
+    apply bind_ok in Hw. destruct Hw as [x [Hx Hu]]. destruct (IHa x Hx) as [Wx Fa].
+    destruct (unary_sound op x w Wx Hu) as [Ww Fu]. split; [assumption|]. intros v Hv.
+    assert (Hgen : forall v, match fold_expr F a with Some l => try_fold_unary_op F op l | None => None end = Some v -> v = lit_of_wval w).
+    { intros v0 H0. destruct (fold_expr F a) as [l|] eqn:El; [|discriminate]. rewrite (Fa l eq_refl) in H0. apply Fu. assumption. }
+    cbn [fold_expr] in Hv.
+    destruct op; try (apply Hgen; assumption).
+    destruct a as [l| | | | | | |]; try (apply Hgen; assumption).
+    (* "-" applied to a literal token *)
+    destruct l; try discriminate Hc; cbn [wgsl_eval wgsl_literal] in Hx.
+    + rewrite negated_literal_i32 in Hv. inv Hv.
+      destruct ((0 <=? b) && (b <? H32)); [|discriminate]. inv Hx. cbn [wgsl_unary] in Hu. inv Hu. reflexivity.
+    + destruct (in_u32_range b); [|discriminate]. inv Hx. discriminate Hu.
+    + inv Hx. discriminate Hu.
+  - (* binary *)
+    cbn [concrete_tree] in Hc. apply andb_prop in Hc. destruct Hc as [Hca Hcb].
+    specialize (IHa Hca). specialize (IHb Hcb). intros w Hw. cbn [wgsl_eval] in Hw.
+    destruct (is_logical op) eqn:Hlog.
+    + (* && || *)
+      destruct (wgsl_eval a) as [x| |] eqn:Hx; try discriminate. destruct x as [| |?|xb]; try discriminate.
+      destruct (IHa _ Hx) as [_ Fa].
+      assert (Hw' : wf_val w /\ forall yb, wgsl_eval b = Ok (VBool yb) ->
+                    w = VBool (match op with BLAnd => xb && yb | _ => xb || yb end)).
+      { destruct op; try discriminate Hlog; destruct xb.
+        - apply bind_ok in Hw. destruct Hw as [y [Hy Hk]]. destruct y; try discriminate. inv Hk. split; [exact I|].
+          intros yb E. rewrite E in Hy. inv Hy. reflexivity.
+        - inv Hw. split; [exact I|]. reflexivity.
+        - inv Hw. split; [exact I|]. reflexivity.
+        - apply bind_ok in Hw. destruct Hw as [y [Hy Hk]]. destruct y; try discriminate. inv Hk. split; [exact I|].
+          intros yb E. rewrite E in Hy. inv Hy. reflexivity. }
+      destruct Hw' as [Ww Hval]. split; [assumption|]. intros v Hv. cbn [fold_expr] in Hv. rewrite Hlog in Hv.
+      assert (Hgen : forall v, match fold_expr F a with Some l => lower_logical op l | None => None end = Some v -> v = lit_of_wval w).
+      { intros v0 H0. destruct (fold_expr F a) as [l|] eqn:El; [|discriminate]. rewrite (Fa l eq_refl) in H0. cbn [lit_of_wval] in H0.
+        destruct op; try discriminate Hlog; destruct xb; cbn [lower_logical] in H0; try discriminate; inv H0; inv Hw; reflexivity. }
+      destruct a as [la| | | | | | |]; try (apply Hgen; assumption).
+      destruct b as [lb| | | | | | |]; try (apply Hgen; assumption).
+      (* both literal tokens: the AST fast path evaluates both operands *)
+      destruct la as [la|la| |la| | | ]; try discriminate Hca; cbn [wgsl_eval wgsl_literal] in Hx.
+      { destruct ((0 <=? la) && (la <? H32)); discriminate Hx. }
+      { destruct (in_u32_range la); discriminate Hx. }
+      injection Hx as ->.
+      destruct lb as [lb|lb| |lb| | | ]; try discriminate Hcb.
+      { change (try_fold_ast_binary F op (LBool xb) (LI32 lb)) with (@None lit) in Hv. apply Hgen. exact Hv. }
+      { change (try_fold_ast_binary F op (LBool xb) (LU32 lb)) with (@None lit) in Hv. apply Hgen. exact Hv. }
+      specialize (Hval lb eq_refl). subst w.
+      destruct op; try discriminate Hlog;
+        cbn [try_fold_ast_binary concretize_literal_pair is_abstract fold_binary_literals is_integer_literal is_float_literal andb bool_binop] in Hv;
+        injection Hv as <-; reflexivity.
+    + (* every other operator *)
+      apply bind2_ok in Hw. destruct Hw as [x [y [Hx [Hy Hk]]]].
+      destruct (IHa x Hx) as [Wx Fa]. destruct (IHb y Hy) as [Wy Fb].
+      destruct (binary_sound op x y w Wx Wy Hk) as [Ww Fk]. split; [assumption|]. intros v Hv.
+      assert (Hgen : forall v, match fold_expr F a, fold_expr F b with
+                               | Some l, Some r => lower_binary_general F op l r | _, _ => None end = Some v -> v = lit_of_wval w).
+      { intros v0 H0. destruct (fold_expr F a) as [l|] eqn:El; [|discriminate]. destruct (fold_expr F b) as [r|] eqn:Er; [|discriminate].
+        rewrite (Fa l eq_refl), (Fb r eq_refl) in H0.
+        rewrite general_concrete in H0 by (apply plain_not_abstract, plain_of_wf; assumption). apply Fk. assumption. }
+      cbn [fold_expr] in Hv. rewrite Hlog in Hv.
+      destruct a as [la| | | | | | |]; try (apply Hgen; assumption).
+      destruct b as [lb| | | | | | |]; try (apply Hgen; assumption).
+      cbn [fold_expr] in Hgen.
+      assert (Pa : plain la) by (destruct la; try discriminate Hca; exact I).
+      assert (Pb : plain lb) by (destruct lb; try discriminate Hcb; exact I).
+      rewrite ast_concrete in Hv by assumption. cbn [fold_expr] in Hv.
+      rewrite general_concrete in Hv by (apply plain_not_abstract; assumption).
+      rewrite some_or_self in Hv. apply Hgen.
+      rewrite general_concrete by (apply plain_not_abstract; assumption). assumption.
+  - (* conversion *)
+    cbn [concrete_tree] in Hc. assert (Hca : concrete_tree a = true) by (destruct t; try discriminate; assumption).
+    specialize (IHa Hca). intros w Hw. cbn [wgsl_eval] in Hw.
+    apply bind_ok in Hw. destruct Hw as [x [Hx Hk]]. destruct (IHa x Hx) as [Wx Fa].
+    destruct (convert_sound t x w Wx Hk) as [Ww Fk]. split; [assumption|]. intros v Hv. cbn [fold_expr] in Hv.
+    destruct (fold_expr F a) as [l|] eqn:El; [|discriminate]. rewrite (Fa l eq_refl) in Hv. apply Fk. assumption.
+  - (* builtin, one argument *)
+    cbn [concrete_tree] in Hc. apply andb_prop in Hc. destruct Hc as [Hf Hca].
+    specialize (IHa Hca). intros w Hw. cbn [wgsl_eval] in Hw.
+    apply bind_ok in Hw. destruct Hw as [x [Hx Hk]]. destruct (IHa x Hx) as [Wx Fa].
+    destruct (math1_sound f x w Hf Wx Hk) as [Ww Fk]. split; [assumption|]. intros v Hv. cbn [fold_expr] in Hv.
+    destruct (fold_expr F a) as [l|] eqn:El; [|discriminate]. rewrite (Fa l eq_refl) in Hv. apply Fk. assumption.
+  - (* builtin, two arguments *)
+    cbn [concrete_tree] in Hc. apply andb_prop in Hc. destruct Hc as [Hc Hcb]. apply andb_prop in Hc. destruct Hc as [Hf Hca].
+    specialize (IHa Hca). specialize (IHb Hcb). intros w Hw. cbn [wgsl_eval] in Hw.
+    apply bind2_ok in Hw. destruct Hw as [x [y [Hx [Hy Hk]]]]. destruct (IHa x Hx) as [Wx Fa]. destruct (IHb y Hy) as [Wy Fb].
+    destruct (math2_sound f x y w Hf Wx Wy Hk) as [Ww Fk]. split; [assumption|]. intros v Hv. cbn [fold_expr] in Hv.
+    destruct (fold_expr F a) as [l|] eqn:El; [|discriminate]. destruct (fold_expr F b) as [r|] eqn:Er; [|discriminate].
+    rewrite (Fa l eq_refl), (Fb r eq_refl) in Hv. apply Fk. assumption.
+  - (* builtin, three arguments *)
+    cbn [concrete_tree] in Hc. apply andb_prop in Hc. destruct Hc as [Hc Hcc]. apply andb_prop in Hc. destruct Hc as [Hc Hcb].
+    apply andb_prop in Hc. destruct Hc as [Hf Hca].
+    specialize (IHa Hca). specialize (IHb Hcb). specialize (IHc Hcc). intros w Hw. cbn [wgsl_eval] in Hw.
+    apply bind3_ok in Hw. destruct Hw as [x [y [z [Hx [Hy [Hz Hk]]]]]].
+    destruct (IHa x Hx) as [Wx Fa]. destruct (IHb y Hy) as [Wy Fb]. destruct (IHc z Hz) as [Wz Fc].
+    destruct (math3_sound f x y z w Hf Wx Wy Wz Hk) as [Ww Fk]. split; [assumption|]. intros v Hv. cbn [fold_expr] in Hv.
+    destruct (fold_expr F a) as [l|] eqn:El; [|discriminate]. destruct (fold_expr F b) as [r|] eqn:Er; [|discriminate].
+    destruct (fold_expr F c) as [s|] eqn:Es; [|discriminate].
+    rewrite (Fa l eq_refl), (Fb r eq_refl), (Fc s eq_refl) in Hv. apply Fk. assumption.
+  - (* select *)
+    cbn [concrete_tree] in Hc. apply andb_prop in Hc. destruct Hc as [Hc Hcc]. apply andb_prop in Hc. destruct Hc as [Hcf Hct].
+    specialize (IHf Hcf). specialize (IHt Hct). specialize (IHc Hcc). intros w Hw. cbn [wgsl_eval] in Hw.
+    apply bind3_ok in Hw. destruct Hw as [x [y [z [Hx [Hy [Hz Hk]]]]]].
+    destruct (IHf x Hx) as [Wx Ff]. destruct (IHt y Hy) as [Wy Ft]. destruct (IHc z Hz) as [Wz Fc].
+    destruct z as [| | |cb]; try discriminate.
+    assert (Hres : w = (if cb then y else x)).
+    { destruct x as [xa|xa|xa|xa]; try contradiction; destruct y as [ya|ya|ya|ya]; try contradiction;
+        cbn [first_concrete concrete_ty unify_to bind2] in Hk; try discriminate; inv Hk; reflexivity. }
+    split; [subst w; destruct cb; assumption|]. intros v Hv. cbn [fold_expr] in Hv.
+    destruct (fold_expr F fv) as [l|] eqn:El; [|discriminate]. destruct (fold_expr F tv) as [r|] eqn:Er; [|discriminate].
+    destruct (fold_expr F c) as [s|] eqn:Es; [|discriminate].
+    rewrite (Ff l eq_refl), (Ft r eq_refl), (Fc s eq_refl) in Hv. cbn [lit_of_wval] in Hv.
+    pose proof (plain_of_wf x Wx) as Px. pose proof (plain_of_wf y Wy) as Py.
+    unfold concretize_binary_operands in Hv. rewrite (plain_not_abstract _ Px), (plain_not_abstract _ Py) in Hv.
+    rewrite !concretize_default_plain in Hv by assumption. inv Hv. destruct cb; reflexivity.
+Qed.
+
+(* the WGSL const value of a concrete tree is its run-time value: no error at compile time
+   means the run-time evaluation takes the same branches *)
+Lemma rt_binary_agrees op x y w : wgsl_binary op x y = Ok w -> wf_val x -> wf_val y -> rt_binary op x y = Ok w.
+Proof.
+  intros Hw Hx Hy. unfold wgsl_binary in Hw. unfold rt_binary.
+  destruct x as [a|a|a|a]; try contradiction; destruct y as [b|b|b|b]; try contradiction;
+    destruct op; cbn [is_shift] in *; try discriminate Hw;
+    unfold wgsl_binary_i32, wgsl_binary_u32, wgsl_shift in Hw;
+    cbn [rt_arith_i32 rt_arith_u32 rt_cmp_i32 rt_cmp_u32] in *;
+    repeat match type of Hw with (if ?c then _ else _) = _ => destruct c; try discriminate Hw end;
+    try assumption; try discriminate Hw.
+Qed.
+
+Lemma unify_all_length t vs l : unify_all t vs = inl (Some l) -> length l = length vs.
+Proof.
+  revert l. induction vs as [|v vs IH]; intros l H; cbn [unify_all] in H.
+  - inv H. reflexivity.
+  - destruct (unify_to t v); try discriminate.
+    + destruct (unify_all t vs) as [[l0|]|r]; try discriminate. inv H. cbn. rewrite (IH l0 eq_refl). reflexivity.
+    + destruct (unify_all t vs) as [[l0|]|[r0|]]; discriminate.
+Qed.
+
+Lemma rt_math_agrees f vs w : int_math f = true -> Forall wf_val vs -> wgsl_math f vs = Ok w -> rt_math f vs = Ok w.
+Proof.
+  intros Hf Hvs Hw. unfold wgsl_math in Hw.
+  destruct vs as [|x [|y [|z [|? ?]]]].
+  - cbn in Hw. destruct f; discriminate.
+  - inv Hvs. destruct x as [a|a|a|a]; try contradiction;
+      cbn [first_concrete concrete_ty unify_all unify_to map payload] in Hw; try discriminate;
+      destruct f; try discriminate; exact Hw.
+  - inv Hvs. inv H2. destruct x as [a|a|a|a]; try contradiction; destruct y as [b|b|b|b]; try contradiction;
+      cbn [first_concrete concrete_ty unify_all unify_to map payload] in Hw; try discriminate;
+      destruct f; try discriminate; exact Hw.
+  - inv Hvs. inv H2. inv H4.
+    destruct x as [a|a|a|a]; try contradiction; destruct y as [b|b|b|b]; try contradiction; destruct z as [c|c|c|c]; try contradiction;
+      cbn [first_concrete concrete_ty unify_all unify_to map payload] in Hw; try discriminate;
+      destruct f; try discriminate; cbn [wgsl_math_i32 wgsl_math_u32] in Hw; cbn [rt_math];
+      match type of Hw with (if ?c then _ else _) = _ => destruct c; [discriminate|exact Hw] end.
+  - assert (Wx : wf_val x) by (inversion Hvs; assumption). clear Hvs.
+    destruct x as [a|a|a|a]; try contradiction; cbn [first_concrete concrete_ty] in Hw.
+    + destruct (unify_all TI32 (VI32 a :: y :: z :: w0 :: l)) as [[l'|]|[r|]] eqn:Eu; try discriminate.
+      apply unify_all_length in Eu. destruct l' as [|? [|? [|? [|? ?]]]]; try discriminate Eu; cbn in Hw; destruct f; discriminate.
+    + destruct (unify_all TU32 (VU32 a :: y :: z :: w0 :: l)) as [[l'|]|[r|]] eqn:Eu; try discriminate.
+      apply unify_all_length in Eu. destruct l' as [|? [|? [|? [|? ?]]]]; try discriminate Eu; cbn in Hw; destruct f; discriminate.
+    + destruct (unify_all TBool (VBool a :: y :: z :: w0 :: l)) as [[l'|]|[r|]]; discriminate.
+Qed.
+
+Theorem wgsl_eval_is_runtime : forall e w, concrete_tree e = true -> wgsl_eval e = Ok w -> rt_eval e = Ok w.
+Proof.
+  induction e as [l | op a IHa | op a IHa b IHb | t a IHa | f a IHa | f a IHa b IHb | f a IHa b IHb c IHc | fv IHf tv IHt c IHc];
+    intros w Hc Hw.
+  - destruct l; try discriminate; exact Hw.
+  - cbn [concrete_tree] in Hc. cbn [wgsl_eval] in Hw. apply bind_ok in Hw. destruct Hw as [x [Hx Hk]].
+    cbn [rt_eval]. rewrite (IHa x Hc Hx). exact Hk.
+  - cbn [concrete_tree] in Hc. apply andb_prop in Hc. destruct Hc as [Hca Hcb]. cbn [wgsl_eval rt_eval] in *.
+    destruct (is_logical op).
+    + destruct (wgsl_eval a) as [x| |] eqn:Hx; try discriminate. rewrite (IHa x Hca eq_refl).
+      destruct x as [| | |xb]; try discriminate.
+      destruct op; try (apply bind_ok in Hw; destruct Hw as [y [Hy Hk]]; rewrite (IHb y Hcb Hy); exact Hk);
+        destruct xb; try exact Hw; apply bind_ok in Hw; destruct Hw as [y [Hy Hk]]; rewrite (IHb y Hcb Hy); exact Hk.
+    + apply bind2_ok in Hw. destruct Hw as [x [y [Hx [Hy Hk]]]]. rewrite (IHa x Hca Hx), (IHb y Hcb Hy). cbn [bind2].
+      apply rt_binary_agrees; [assumption | apply (fold_tree_sound a Hca x Hx) | apply (fold_tree_sound b Hcb y Hy)].
+  - cbn [concrete_tree] in Hc. assert (Hca : concrete_tree a = true) by (destruct t; try discriminate; assumption).
+    cbn [wgsl_eval rt_eval] in *. apply bind_ok in Hw. destruct Hw as [x [Hx Hk]]. rewrite (IHa x Hca Hx). cbn [bind].
+    pose proof (proj1 (fold_tree_sound a Hca x Hx)) as Wx. destruct x; try contradiction; exact Hk.
+  - cbn [concrete_tree] in Hc. apply andb_prop in Hc. destruct Hc as [Hf Hca]. cbn [wgsl_eval rt_eval] in *.
+    apply bind_ok in Hw. destruct Hw as [x [Hx Hk]]. rewrite (IHa x Hca Hx). cbn [bind].
+    apply rt_math_agrees; [assumption | | assumption]. constructor; [apply (fold_tree_sound a Hca x Hx) | constructor].
+  - cbn [concrete_tree] in Hc. apply andb_prop in Hc. destruct Hc as [Hc Hcb]. apply andb_prop in Hc. destruct Hc as [Hf Hca].
+    cbn [wgsl_eval rt_eval] in *. apply bind2_ok in Hw. destruct Hw as [x [y [Hx [Hy Hk]]]].
+    rewrite (IHa x Hca Hx), (IHb y Hcb Hy). cbn [bind2].
+    apply rt_math_agrees; [assumption | | assumption].
+    constructor; [apply (fold_tree_sound a Hca x Hx) | constructor; [apply (fold_tree_sound b Hcb y Hy) | constructor]].
+  - cbn [concrete_tree] in Hc. apply andb_prop in Hc. destruct Hc as [Hc Hcc]. apply andb_prop in Hc. destruct Hc as [Hc Hcb].
+    apply andb_prop in Hc. destruct Hc as [Hf Hca].
+    cbn [wgsl_eval rt_eval] in *. apply bind3_ok in Hw. destruct Hw as [x [y [z [Hx [Hy [Hz Hk]]]]]].
+    rewrite (IHa x Hca Hx), (IHb y Hcb Hy), (IHc z Hcc Hz). cbn [bind3].
+    apply rt_math_agrees; [assumption | | assumption].
+    constructor; [apply (fold_tree_sound a Hca x Hx) | constructor; [apply (fold_tree_sound b Hcb y Hy) | constructor; [apply (fold_tree_sound c Hcc z Hz) | constructor]]].
+  - cbn [concrete_tree] in Hc. apply andb_prop in Hc. destruct Hc as [Hc Hcc]. apply andb_prop in Hc. destruct Hc as [Hcf Hct].
+    cbn [wgsl_eval rt_eval] in *. apply bind3_ok in Hw. destruct Hw as [x [y [z [Hx [Hy [Hz Hk]]]]]].
+    rewrite (IHf x Hcf Hx), (IHt y Hct Hy), (IHc z Hcc Hz).
+    pose proof (proj1 (fold_tree_sound fv Hcf x Hx)) as Wx. pose proof (proj1 (fold_tree_sound tv Hct y Hy)) as Wy.
+    destruct z as [| | |cb]; try discriminate.
+    destruct x as [xa|xa|xa|xa]; try contradiction; destruct y as [ya|ya|ya|ya]; try contradiction;
+      cbn [first_concrete concrete_ty unify_to bind2] in Hk; try discriminate; cbn [concrete_ty]; exact Hk.
 Qed.
 
 End Tree.
